@@ -83,57 +83,11 @@ Definition vstore := storeA (list vrec).
 Definition slot_entry {A} (tfs recLen : Z) (t : Z) (a : A) : entryA A :=
   ((year_of t, IndexToOffset (TimeToIndex tfs t) recLen), (TimeToIndex tfs t, a)).
 
-(** * the bufferMeta bookkeeping of a backward scan over several year files (scanner.go:349-375)
-
-    readBackward reports [bytesRead] = all live slots of the 8192-record chunks it read, which can
-    exceed what was still missing.  read() then sets bytesLeftToFill = 0 and records for THAT file
-    the WHOLE result buffer (bufMetaLen = len(resultBuffer)) — including the index triples already
-    filled in from LATER year files.  readSecondStage reads those foreign {offset, len} triples in
-    the earlier file: EOF / snappy error / foreign bytes.  The outcome depends on file contents the
-    model does not carry; the model says Rejected (the usual outcome) and the correspondence accepts
-    whatever the implementation did in exactly this class. *)
-
-(** chunk number, counted from the end of the file plan, of each live slot of year file [y] *)
-Definition slot_chunks {A} (tfs recLen rs : Z) (re : option Z) (s : list (entryA A)) (y : Z) : list Z :=
-  match plan tfs recLen rs re y with
-  | None => []
-  | Some (o, len) =>
-      map (fun e => (o + len - snd (fst e) - recLen) / (recordsPerRead * recLen))
-          (filter (fun e => (fst (fst e) =? y) && in_plan recLen o len (snd (fst e))
-                            && negb (fst (snd e) =? 0)) s)
-  end.
-
-Definition file_chunks {A} (tfs recLen rs : Z) (re : option Z) (st : storeA A) : list (list Z) :=
-  map (slot_chunks tfs recLen rs re (s_data st))
-      (filter (fun y => is_some (plan tfs recLen rs re y)) (sort_years (s_years st))).
-
-(** asked for [left] more slots, the file's live slots have chunk numbers [cs] (ascending offset):
-    does readBackward read more live slots than asked for? *)
-Definition overshoot (left : nat) (cs : list Z) : bool :=
-  match nth_error (rev cs) (left - 1) with
-  | Some c => Nat.ltb left (length (filter (fun x => Z.leb x c) cs))
-  | None => false
-  end.
-
-(** [seen]: some later year file already contributed slots *)
-Fixpoint last_garbage (left : nat) (seen : bool) (fd : list (list Z)) : bool :=
-  match fd with
-  | [] => false
-  | cs :: r => if (length cs <? left)%nat
-               then last_garbage (left - length cs) (seen || negb (length cs =? 0)%nat) r
-               else seen && overshoot left cs
-  end.
-
-Definition last_span_garbage {A} (tfs : Z) (st : storeA A) (rs : Z) (re : option Z) (lim : option (dir * Z)) : bool :=
-  match lim with
-  | Some (Last, n) =>
-      let n32 := wrap I32 n in
-      if n32 =? max_int32 then false
-      else let lb := wrap I32 (24 * n32) in
-           if lb <? 0 then false
-           else last_garbage (Z.to_nat (lb / 24)) false (rev (file_chunks tfs 24 rs re st))
-  | _ => false
-  end.
+(** The bufferMeta bookkeeping of a backward scan over several year files (scanner.go:349-378) is,
+    as of /repo commit ca55ae9, transparent: each file's metadata is the part of the result buffer
+    that file filled, so the second stage expands exactly the slots [query] returns.  (Before it, a
+    file in which readBackward over-read was given the whole buffer: class
+    variable-last-limit-spans-year-files, now `fixed:`.) *)
 
 (** ExecuteQuery on a catalog holding one VARIABLE bucket of timeframe [tfs]; range bounds carry
     nanoseconds; the index-slot scan sees only their seconds *)
@@ -142,7 +96,6 @@ Definition exec_var (tfs : Z) (st : vstore) (req : Z) (rs : Z * Z) (re : option 
   let q := queryable_tfs req in
   if q =? tfs then
     let lim' := eff_limit req q lim in
-    if last_span_garbage tfs st (fst rs) (option_map fst re) lim' then Rejected else
     do slots <- query tfs 24 st (fst rs) (option_map fst re) lim';
     let recs := trim_range rs re (concat (map snd slots)) in
     Ok (match lim' with None => recs | Some (d, n) => trim_limit d (wrap I32 n) recs end)
@@ -164,19 +117,12 @@ Definition scanned (tfs : Z) (st : vstore) (rs : Z * Z) (re : option (Z * Z)) : 
   concat (file_rows tfs 24 (fst rs) (option_map fst re) st).
 
 (** F12: the limit counts index slots (intervals) before the range trim.  The guard: every
-    interval holds a record, the candidates are in time order, either the limit covers all
-    scanned intervals or the range bound on the side the limit counts from cuts no candidate,
-    and the backward scan does not over-read in an earlier year file ([last_span_garbage]). *)
-Definition guard_f12 (tfs : Z) (st : vstore) (rs : Z * Z) (re : option (Z * Z)) (d : dir) (n : Z) : bool :=
+    interval holds a record, the candidates are in time order, and either the limit covers all
+    scanned intervals or the range bound on the side the limit counts from cuts no candidate. *)
+Definition guard_var (tfs : Z) (st : vstore) (rs : Z * Z) (re : option (Z * Z)) (d : dir) (n : Z) : bool :=
   let S := scanned tfs st rs re in
   let L := concat (map snd S) in
   forallb (fun s => negb (match snd s with [] => true | _ => false end)) S
   && time_sorted L
   && ((Z.of_nat (length S) <=? n)
       || match d with First => all_ge rs L | Last => all_le re L end).
-
-Definition guard_span (tfs : Z) (st : vstore) (rs : Z * Z) (re : option (Z * Z)) (d : dir) (n : Z) : bool :=
-  negb (last_span_garbage tfs st (fst rs) (option_map fst re) (Some (d, n))).
-
-Definition guard_var (tfs : Z) (st : vstore) (rs : Z * Z) (re : option (Z * Z)) (d : dir) (n : Z) : bool :=
-  guard_f12 tfs st rs re d n && guard_span tfs st rs re d n.
